@@ -405,8 +405,9 @@ class StubsStringGenerator:
             if attribute.type:
                 attribute_type = attribute.type.to_dict()
 
-                # Don't create TypeVar attributes
-                if attribute_type["kind"] == "TypeVarType":
+                # Don't create TypeVar attributes, i.e. type variables that are defined in the class. An attribute that has a
+                # type variable as type is an attribute like every other.
+                if attribute_type["kind"] == "TypeVarType" and attribute_type["name"] == attribute.name:
                     continue
 
             static_string = "static " if attribute.is_static else ""
